@@ -34,6 +34,71 @@ BEHAVIOURS = {
     "eof": lambda rng: att(after="fin"),
     "reset-mid": lambda rng: att(head=hd(cl=9), body=3, after="reset"),
 }
+
+
+def _sizes(rng, total):
+    out = []
+    while total > 0:
+        n = min(total, rng.randint(1, 15))
+        out.append(n)
+        total -= n
+    return out
+
+
+def _chunked(rng, trailers=None, **kw):
+    body = rng.choice([5, 23, 40])
+    if trailers is None:
+        trailers = [rng.choice([4, 9, 17]) for _ in range(rng.randint(0, 3))]
+    return att(head=hd(cl=None, close=kw.pop("close", False)), body=body, chunks=_sizes(rng, body), trailers=trailers, **kw)
+
+
+def wire_len(a):
+    """number of bytes after the head of the reply scripted by `a` (without the stray bytes)"""
+    if a.get("chunks") is None:
+        return a["body"]
+    return len(c01.chunked_wire(a, b"x" * a["body"]))
+
+
+def trailer_len(a):
+    return sum(len(t) + 2 for t in c01.trailer_lines(a)) + 2
+
+
+def _hold_inside(rng, a, lo=1, hi=None):
+    """hold back a tail that starts strictly inside the framed message (so that the part sent at once is an
+    incomplete message) and reaches to the end of everything sent, stray bytes included"""
+    n = wire_len(a)
+    hi = n if hi is None else min(hi, n)
+    a["hold"] = a["stray"] + rng.randint(min(lo, hi), hi)
+    return a
+
+
+def _hold_trailer(rng, a):
+    """the last-chunk line and at least the first line of the trailer section go out at once, the rest of the
+    trailer section (at least its last byte) is held back"""
+    first = len(c01.trailer_lines(a)[0]) + 2
+    return _hold_inside(rng, a, 1, trailer_len(a) - first)
+
+
+# server behaviours with chunked framing and / or delayed delivery of a tail of the reply
+EXT_BEHAVIOURS = {
+    "chunked": lambda rng: _chunked(rng),
+    "chunked-close": lambda rng: _chunked(rng, close=True, after="fin"),
+    "chunked-stray": lambda rng: _chunked(rng, stray=rng.choice([3, 30])),
+    "chunked-hold": lambda rng: _hold_inside(rng, _chunked(rng, stray=rng.choice([0, 0, 7]))),
+    "chunked-hold-eof": lambda rng: _hold_inside(rng, _chunked(rng, after="fin")),
+    "chunked-hold-trailer": lambda rng: _hold_trailer(rng, _chunked(rng, trailers=[rng.choice([4, 9]) for _ in range(rng.randint(1, 3))],
+                                                                 stray=rng.choice([0, 0, 7]))),
+    "cl-hold": lambda rng: _hold_inside(rng, att(head=hd(), body=rng.choice([5, 40]), stray=rng.choice([0, 0, 7]))),
+    "untilclose-hold": lambda rng: _hold_inside(rng, att(head=hd(cl=None), body=rng.choice([5, 40]))),
+}
+# ... whose held-back tail reads as an HTTP response (trailer smuggling): only in histories without early release
+SMUGGLE_BEHAVIOURS = {
+    "chunked-smuggle": lambda rng: dict(_chunked(rng, trailers=[rng.choice([4, 9]), 15, 17], smuggle=True, stray=6),
+                                        hold=6 + 2 + 19 + 17),
+}
+ALL_BEHAVIOURS = dict(BEHAVIOURS, **EXT_BEHAVIOURS, **SMUGGLE_BEHAVIOURS)
+EARLY = ("release", "readkrel")
+
 HEAD_BEHAVIOURS = {
     "head-cl": lambda rng: att(head=hd(cl=5)),
     "head-cl-stray": lambda rng: att(head=hd(cl=5), stray=rng.choice([5, 30])),
@@ -64,9 +129,14 @@ class C03(Prop):
         n = rng.randint(2, 4)
         seg = rng.choice([0, 0, 1, 7, 16])
         ops, live = [], []
+        # a third of the histories stay within the plain alphabet; a sixth may contain trailer smuggling and then
+        # has no early release (with early release the known finding would hand the smuggled reply to the caller)
+        mode = rng.choice(["plain", "plain", "ext", "ext", "ext", "smuggle"])
+        plain = {"plain": BEHAVIOURS, "ext": dict(BEHAVIOURS, **EXT_BEHAVIOURS), "smuggle": ALL_BEHAVIOURS}[mode]
+        callers = [c for c in CALLER if c is None or c[0] not in EARLY] if mode == "smuggle" else CALLER
         for rid in range(n):
             method = rng.choice(["GET", "GET", "GET", "HEAD", "POST"])
-            table = HEAD_BEHAVIOURS if method == "HEAD" else BEHAVIOURS
+            table = HEAD_BEHAVIOURS if method == "HEAD" else plain
             script = []
             for j in range(3):
                 name = rng.choice(list(table)) if (j == 0 or rng.random() < 0.4) else ("head-cl" if method == "HEAD" else "cl")
@@ -74,29 +144,33 @@ class C03(Prop):
                 a["seg"] = seg
                 script.append(a)
             preload = rng.random() < 0.25
-            ops.append(dict(op="req", method=method, script=script, retries=2, preload=preload,
-                            release=None if rng.random() < 0.85 else rng.random() < 0.5))
+            release = None if rng.random() < 0.85 else rng.random() < 0.5
+            if mode == "smuggle" and release and not preload:
+                release = None
+            ops.append(dict(op="req", method=method, script=script, retries=2, preload=preload, release=release))
             if not preload:
                 live.append(rid)
             while live and rng.random() < 0.75:
                 r = live.pop(rng.randrange(len(live)))
-                how = rng.choice(CALLER)
+                how = rng.choice(callers)
                 if how is not None:
                     ops.append(dict(op="disp", rid=r, how=how))
         for r in live:
-            how = rng.choice(CALLER)
+            how = rng.choice(callers)
             if how is not None:
                 ops.append(dict(op="disp", rid=r, how=how))
-        return {"cfg": cfg, "ops": ops, "kind": "hist%d" % n}
+        return {"cfg": cfg, "ops": ops, "kind": "hist%d%s" % (n, "" if mode == "plain" else "-" + mode)}
 
     def cases(self, rng, tier, escalate=False):
         deep = tier == "thorough" or escalate
         # the pairing "how the previous response was left" x "what the server still had in flight", exhaustively
         for seg in (0, 7):
-            for first in BEHAVIOURS:
+            for first in ALL_BEHAVIOURS:
                 for how in CALLER:
+                    if first in SMUGGLE_BEHAVIOURS and how is not None and how[0] in EARLY:
+                        continue
                     for msize in (1, 2):
-                        a = dict(BEHAVIOURS[first](rng))
+                        a = dict(ALL_BEHAVIOURS[first](rng))
                         a["seg"] = seg
                         ops = [dict(op="req", script=[a, "ok", "ok"], retries=2, preload=False, release=None)]
                         if how is not None:
